@@ -128,6 +128,13 @@ class C19(Prop):
                     for _ in range(5):
                         steps.append({"t": "call", "m": "get", "a": [E(rng.choice(owned))], "k": {}, "tag": "preamble"})
                         steps.append({"t": "advance", "dt": 1.5})
+                    if rng.random() < 0.5:
+                        # the machine answers again and a broadcast operation (which goes to every client the
+                        # HashClient knows, dead ones included) re-opens a connection to it - a connection to a node
+                        # that is about to be replaced
+                        steps.append({"t": "node", "id": victim + 1, "health": "up"})
+                        steps.append({"t": "call", "m": rng.choice(["flush_all", "stats"]), "a": [], "k": {},
+                                      "tag": "broadcast"})
                     new = [i for i in cur if i != victim]
                     if len(new) > 1 and rng.random() < 0.6:
                         # ... and other nodes leave the cluster in the same reconfiguration
